@@ -9,13 +9,13 @@ theorem switch_claims (ls : List Id) (p : Nat) (d : Kids) (cs : Cases) (a : A) (
     (ihc : ∀ x, PreK cs.positions x → (stopsEnd x.sc.end_ = true → x.info.ur p = true) → CClaims cs p (visitCases cs x).info) :
     SClaims (.switchS p d cs) ls (visitStmt (.switchS p d cs) a).info := by
   have own := own_claim (.switchS p d cs) ls a hf hpre
-  have hf' : d.okF = true ∧ cs.inF = true := by simpa [Stmt.inF] using hf
+  have hf' : (d.okF = true ∧ d.pure = true) ∧ cs.inF = true := by simpa [Stmt.inF] using hf
   have hsp := Split.of hpre.nodup
   have hpre0 : PreK (d.positions ++ cs.positions) (flagA a p .other) :=
     (hpre.sub (fun q hq => List.mem_cons_of_mem _ hq) (List.nodup_cons.mp hpre.nodup).2).flag p .other
   have hv := visitStmt_switch p d cs a
   have hk := ihk _ hpre0.left
-  have hK := visitKids_ok d _ hf'.1 hpre0.left
+  have hK := visitKids_ok d _ hf'.1.1 hf'.1.2 hpre0.left
   have fr1 : ∀ q, q ∉ d.positions → (visitKids d (flagA a p .other)).info q = (flagA a p .other).info q :=
     fun q hq => Kids.info_frame d _ q hq
   have ur1 : (visitKids d (flagA a p .other)).info.ur p = (flagA a p .other).info.ur p :=
